@@ -7,6 +7,8 @@ import (
 	"go/token"
 	"go/types"
 
+	"golang.org/x/tools/go/ssa"
+
 	"verif/gqlvet/core"
 )
 
@@ -529,4 +531,48 @@ func nextStmt(list []ast.Stmt, i int) ast.Stmt {
 		return list[i+1]
 	}
 	return nil
+}
+
+func init() {
+	register(&core.Rule{Name: "C15/FLOW-rawargs", Props: []string{"C15", "C05"}, Min: 1,
+		Doc: "already coerced variable values never become the raw variable input of another execution", Run: c15RawArgs})
+}
+
+// c15RawArgs: ExecuteParams.Args / Params.VariableValues are the client's raw variable values; every execution coerces
+// them itself. Coercion is not idempotent (an enum's wire name becomes its internal value, a custom scalar is
+// parsed), so storing executionContext.VariableValues (or the result of getVariableValues) there makes the next
+// execution coerce coerced values: per-event subscription results then carry "got invalid value" instead of data.
+func c15RawArgs(c *core.Ctx, r *core.Reporter) {
+	raw := map[string]bool{"ExecuteParams.Args": true, "Params.VariableValues": true}
+	n := 0
+	per := map[string]int{}
+	for _, fn := range c.LibFuncs() {
+		for _, w := range core.WritesIn(fn) {
+			if w.Owner == nil || w.Field == nil || !raw[w.Owner.Obj().Name()+"."+w.Field.Name()] {
+				continue
+			}
+			st, ok := w.In.(*ssa.Store)
+			if !ok {
+				continue
+			}
+			n++
+			name := fnKey(fn)
+			per[name]++
+			key := fmt.Sprintf("%s/%s.%s#%d", name, w.Owner.Obj().Name(), w.Field.Name(), per[name])
+			coerced := ""
+			for _, k := range core.Classes(st.Val) {
+				if k == "field:executionContext.VariableValues" || k == "call:getVariableValues" {
+					coerced = k
+				}
+			}
+			if coerced != "" {
+				r.Bad(key, st.Pos(), "%s stores coerced variable values (%s) into %s.%s, the raw variable input of an execution: the execution that reads it coerces them a second time, which fails or changes the value for every type whose internal form differs from its wire form (enums with explicit values, custom scalars)", name, coerced, w.Owner.Obj().Name(), w.Field.Name())
+			} else {
+				r.OK(key, st.Pos(), "value comes from %s", core.Join(core.Classes(st.Val)))
+			}
+		}
+	}
+	if n == 0 {
+		r.Unknown("raw-variable-stores", token.NoPos, "no store to ExecuteParams.Args / Params.VariableValues found")
+	}
 }
